@@ -142,7 +142,11 @@ ValueStore::ValueStore(IdentityConstraint* const ic,
     , fScanner(scanner)
     , fMemoryManager(manager)
 {
-    fDoReportError = (scanner && (scanner->getValidationScheme() == XMLScanner::Val_Always));
+    // A value store only exists while the scanner is validating (it is created from
+    // activateIdentityConstraint, which runs under toCheckIdentityConstraint(), i.e. fValidate).
+    // Under Val_Auto validation is switched on as soon as a grammar is seen, so identity-constraint
+    // violations have to be reported there as well, not only under Val_Always.
+    fDoReportError = (scanner && (scanner->getValidationScheme() != XMLScanner::Val_Never));
 }
 
 
